@@ -19,7 +19,7 @@ TECHNIQUE = "exhaustive product mnemonic x operand shape x size suffix x boundar
 RULE = (
     "one-instruction programs `*=0x008000` + line: every mnemonic of the assembler's table and of the ISA matrix x 47 operand shapes (implied; plain/# with "
     "none,x,y,s and double indexes; ( ) and [ ] with every inner x outer index in {none,x,y,s}) x suffix {none,.b,.w,.l} x values (thorough: 0,0x7F,0xFF,0x100,0x1234,"
-    "0xFFFF,0x10000,0x123456,0xFFFFFF,0x1000000; quick: 0xFF,0x100,0xFFFF,0x10000,0x123456) x letter case {lower, UPPER, Mixed}; plus Hypothesis operands that are random "
+    "0xFFFF,0x10000,0x123456,0xFFFFFF,0x1000000; quick: 0xFF,0x100,0xFFFF,0x10000,0x123456) x letter case {lower, UPPER, Mixed}; unsuffixed operands also spelled as zero-padded hex (4/6/8 digits), decimal and zero-padded binary; plus Hypothesis operands that are random "
     "expression trees in #, plain, ( ) and [ ] position.  Oracle: accepted => bytes == ISA opcode for (mnemonic, syntax, width) + value truncated little-endian, one block; "
     "ISA-undefined combination => rejected; supported_set.json cell => accepted; letter case changes nothing.  Non-trivial = accepted with >=1 operand byte, or rejected "
     "ISA-undefined shape; distinct by construction (enumeration) / case hash."
@@ -110,6 +110,11 @@ def canon(shape):
     if prefix in ("", "#") and inner and not outer:
         return (prefix, None, inner)
     return shape
+
+
+def rng_pad(value: int) -> int:
+    """zero-padded binary literal width: the next multiple of 8 bits above the value's own width"""
+    return ((value.bit_length() + 7) // 8 + 1) * 8
 
 
 def infer_width(value: int) -> int:
@@ -227,6 +232,23 @@ def run_case(case) -> Outcome:
                         if check_one(out, m, shape, sfx, value, lc, line, sub, stats):
                             nt += 1
                         ev += 1
+        # literal spellings: the width follows the VALUE, not the digits written (zero-padded hex, decimal, binary)
+        for shape in SHAPES:
+            if shape[0] == "imp" or canon(shape) != shape:
+                continue
+            for value in (0x12, 0xFF, 0x100, 0x1234, 0x12345):
+                for form in ("%04x", "%06x", "%08x", "dec", "bin"):
+                    if form == "dec":
+                        text = str(value)
+                    elif form == "bin":
+                        text = "0b" + bin(value)[2:].zfill(rng_pad(value))
+                    else:
+                        text = "0x" + form % value
+                    line = render_line(m, shape, "", text, "lower")
+                    sub = {"t": "one", "m": m, "shape": list(shape), "sfx": "", "v": value, "case": "lower", "text": text}
+                    if check_one(out, m, shape, "", value, "lower", line, sub, stats):
+                        nt += 1
+                    ev += 1
         out.evals, out.nontrivial = ev, nt
         out.labels = [f"enum:{k}" for k in stats] + [f"mnemonic:{m}"]
         out.sample = {"mnemonic": m, "lines_tried": ev, "stats": dict(stats),
@@ -235,7 +257,7 @@ def run_case(case) -> Outcome:
     if t == "one":
         out = Outcome(evals=1)
         shape = tuple(case["shape"])
-        line = render_line(case["m"], shape, case["sfx"], "0x%x" % case["v"], case["case"])
+        line = render_line(case["m"], shape, case["sfx"], case.get("text") or "0x%x" % case["v"], case["case"])
         out.nontrivial = bool(check_one(out, case["m"], shape, case["sfx"], case["v"], case["case"], line, case))
         return out
     if t == "expr":
